@@ -60,16 +60,27 @@ KEYWORDS = ['ADD', 'ALTER', 'ARRAY', 'AS', 'AUTOINCREMENT', 'AUTO_INCREMENT', 'A
 ABSTRACT_COLS = ("a", "b", "c", "d", "e")
 
 
-def name_map(seed):
+# words that open statements / client directives in SQL scripts but are no grammar keywords here: legal column names, first on their line
+# in the multi-line layouts (the line filter must not take them for a statement)
+OPENER_WORDS = ("exit prompt rem remark spool whenever begin end commit rollback merge truncate revoke declare call exec execute print show describe explain "
+                "analyze vacuum copy load unload lock unlock stop run quit connect define accept pause host shutdown flush reset optimize repair handler prepare "
+                "deallocate savepoint release abort checkpoint listen notify reindex select values do return loop while case when then else fetch open close").split()
+
+
+def name_map(seed, salt=0):
     """abstract column names -> concrete identifiers.  seed 0 keeps a, b, c; other seeds draw keyword-shaped but legal
     identifiers (a keyword with a suffix / prefix, any case) so that prefix / substring matching of keywords shows."""
-    if seed % 5 == 0:
+    if seed % 6 == 5:   # statement-opener words as column names
+        rnd = random.Random(f"openers{seed}:{salt}")     # (salt: another draw per behaviour, so that one run meets every word)
+        ws = rnd.sample(OPENER_WORDS, len(ABSTRACT_COLS))
+        return {c: (w if rnd.random() < 0.6 else (w.upper() if rnd.random() < 0.5 else w.capitalize())) for c, w in zip(ABSTRACT_COLS, ws)}
+    if seed % 6 == 0:
         return {c: c for c in ABSTRACT_COLS}
-    if seed % 5 == 1:   # names that merely START with a word the lexer matches by regular expression / prefix
+    if seed % 6 == 1:   # names that merely START with a word the lexer matches by regular expression / prefix
         return {"a": "collateral_id", "b": "auto_incremented", "c": "ARRAY_len", "d": "autoincrement_no", "e": "Collated_at"}
-    if seed % 5 == 2:   # legal sibling names that differ only by quoting / letter case
+    if seed % 6 == 2:   # legal sibling names that differ only by quoting / letter case
         return {"a": '"Col"', "b": "col", "c": "COL", "d": "`col`", "e": "[Col]"}
-    rnd = random.Random(f"names{seed}")
+    rnd = random.Random(f"names{seed}:{salt}")
     out, used = {}, set()
     for c in ABSTRACT_COLS:
         while True:
@@ -270,7 +281,7 @@ def project_table(t, open_names=(), nm=None):
         r = c.get("references")
         if r:
             rc = [r["column"]] if "column" in r else list(r.get("columns") or [])
-            refs.append({"cs": [c.get("name")], "sch": r.get("schema"), "tb": r.get("table"), "rc": rc, "od": r.get("on_delete"),
+            refs.append({"cs": [c.get("name")], "sch": r.get("schema", r.get("dataset")), "tb": r.get("table"), "rc": rc, "od": r.get("on_delete"),
                          "ou": r.get("on_update")})
     cons = t.get("constraints") or {}
     named, multi = [], []
@@ -283,7 +294,7 @@ def project_table(t, open_names=(), nm=None):
             named.append(["cuniq", u.get("constraint_name"), list(u["columns"])])
     for r in cons.get("references", []):
         nm = r.get("name")
-        refs.append({"cs": nm if isinstance(nm, list) else [nm], "sch": r.get("schema"), "tb": r.get("table"),
+        refs.append({"cs": nm if isinstance(nm, list) else [nm], "sch": r.get("schema", r.get("dataset")), "tb": r.get("table"),
                      "rc": list(r.get("columns") or ([r["column"]] if "column" in r else [])), "od": r.get("on_delete"),
                      "ou": r.get("on_update")})
     checks = []
